@@ -287,6 +287,10 @@ func (g *docGen) selSet(typeName string, depth int, keys map[string]bool) []mode
 }
 
 func (g *docGen) freshKey(keys map[string]bool, prefix string) string {
+	// "data" is also the key of ggql's internal root pseudo field: a legal alias that must behave like any other
+	if !keys["data"] && g.r.Intn(10) == 0 {
+		return "data"
+	}
 	for i := 0; ; i++ {
 		k := fmt.Sprintf("%s%d", prefix, i)
 		if !keys[k] {
